@@ -1,6 +1,6 @@
 (* Dispatch: the single entry point of the extracted model. One request line in, one result line out. *)
 From Klog Require Import Base.Prelude Model.Show Model.SuiteValues Model.SuiteParse Model.SuiteParallel Model.SuiteEval Model.SuiteCommands
-  Model.SuitePeriod Model.SuiteTags Model.SuiteStyler Model.SuiteBookmarks.
+  Model.SuitePeriod Model.SuiteTags Model.SuiteStyler Model.SuiteBookmarks Model.SuiteReport Model.SuiteQuery Model.SuiteJson.
 
 Definition first_some (l : list (option bytes)) : bytes :=
   match flat_map (fun o => match o with Some x => [x] | None => [] end) l with
@@ -12,6 +12,7 @@ Definition dispatch (line : bytes) : bytes :=
   match tokens line with
   | cmd :: args =>
     first_some [suite_values cmd args;
+                suite_report cmd args;
                 suite_parse cmd args;
                 suite_parallel cmd args;
                 suite_eval cmd args;
@@ -19,6 +20,8 @@ Definition dispatch (line : bytes) : bytes :=
                 suite_period cmd args;
                 suite_tags cmd args;
                 suite_styler cmd args;
-                suite_bookmarks cmd args]
+                suite_bookmarks cmd args;
+                suite_query cmd args;
+                suite_json cmd args]
   | [] => b!"?empty"
   end.
